@@ -102,7 +102,7 @@ def rand_filters(rng: random.Random, n: int, n_mazes: int, allow=("path_length",
     return out
 
 
-def rand_cfgspec(rng: random.Random, max_n: int = 6, max_mazes: int = 8, filters: bool = True, rich_endpoints: bool = True, gens=GENS, min_n: int = 2, big_mazes: float = 0.0) -> dict:
+def rand_cfgspec(rng: random.Random, max_n: int = 6, max_mazes: int = 8, filters: bool = True, rich_endpoints: bool = True, gens=GENS, min_n: int = 2, big_mazes: float = 0.0, force: str | None = None) -> dict:
     gen = rng.choice(gens)
     n = rng.randint(min_n, max_n)
     n_mazes = rng.randint(1, max_mazes)
@@ -110,12 +110,20 @@ def rand_cfgspec(rng: random.Random, max_n: int = 6, max_mazes: int = 8, filters
         # dataset sizes on both sides of the library's default size threshold (100), on small grids to stay cheap
         n = rng.randint(min_n, min(max_n, 4))
         n_mazes = rng.randint(97, 130)
+    kw = rand_ctor_kwargs(rng, gen, n)
+    if force == "float_kwargs":
+        # make sure the rarer argument class (proportions given as floats) is present in small batches too
+        gen = rng.choice(["gen_dfs", "gen_prim"])
+        n = max(n, 3)
+        kw = {rng.choice(["accessible_cells", "max_tree_depth"]): rng.choice([1.0, 0.5, 0.75, round(rng.uniform(0.4, 1.0), 2)])}
+        if rng.random() < 0.3:
+            kw["accessible_cells"] = rng.choice([1.0, 0.6, 0.9])
     return {
         "name": rng.choice(["t", "sim", "cache-test", "a b"]),
         "grid_n": n,
         "n_mazes": n_mazes,
         "maze_ctor": gen,
-        "maze_ctor_kwargs": rand_ctor_kwargs(rng, gen, n),
+        "maze_ctor_kwargs": kw,
         "endpoint_kwargs": rand_endpoint_kwargs(rng, n, rich_endpoints),
         "seed": rng.choice([42, 42, 0, 1, 7, rng.randrange(2**31)]),
         "applied_filters": rand_filters(rng, n, n_mazes) if (filters and rng.random() < 0.4) else [],
